@@ -2,8 +2,11 @@ package props
 
 import (
 	"crypto/x509"
+	"encoding/binary"
 	"encoding/pem"
 	"fmt"
+	"google.golang.org/protobuf/encoding/prototext"
+	"google.golang.org/protobuf/proto"
 	"os"
 	"path/filepath"
 	"strings"
@@ -579,5 +582,109 @@ func TestC02(t *testing.T) {
 	})
 	gen.Direct(t, "embedded-root-and-a-re-rooted-sample", func(t *testing.T) {
 		intelReRootedCheck(t, "accepted => the leaf chains through the intermediate carried in the quote to a trusted root")
+	})
+	// The same question asked of the command line tool: which roots are in force when -trusted_roots, a config file with
+	// cabundle_paths, both (in either order on the command line) or neither is given? The flag, when given, wins; without
+	// any of them the embedded Intel root. A quote is accepted (exit 0) exactly if its root is among the roots in force.
+	gen.Direct(t, "check-tool-roots-in-force", func(t *testing.T) {
+		tool := os.Getenv("VERIF_CHECK_TOOL")
+		if tool == "" {
+			gen.HarnessError(t, "VERIF_CHECK_TOOL is not set (the driver builds tools/check from the working tree)")
+		}
+		sh, _ := gen.Shard()
+		dir := filepath.Join(gen.VerifDir(), ".build", "c02tool", fmt.Sprint(sh))
+		_ = os.RemoveAll(dir)
+		defer os.RemoveAll(dir)
+		if err := os.MkdirAll(dir, 0o755); err != nil {
+			gen.HarnessError(t, "mkdir: %v", err)
+		}
+		wr := func(name string, b []byte) string {
+			p := filepath.Join(dir, name)
+			if err := os.WriteFile(p, b, 0o644); err != nil {
+				gen.HarnessError(t, "write %s: %v", p, err)
+			}
+			return p
+		}
+		pA, pB := gen.NewPKI(gen.PKISpec{Seed: "pki-A"}), gen.NewPKI(gen.PKISpec{Seed: "pki-B"})
+		wA := gen.NewWorld(pA, gen.NewStream(gen.Seed()+2, "c02tool"))
+		binary.LittleEndian.PutUint64(wA.Q.Xfam[:], gen.XfamFixed1)
+		binary.LittleEndian.PutUint64(wA.Q.TdAttr[:], 0)
+		wA.Build()
+		rootA, rootB := wr("rootA.pem", pA.Root.PEM), wr("rootB.pem", pB.Root.PEM)
+		quotes := map[string]string{"intel-sample": wr("intel.dat", testdata.RawQuote), "own-quote-under-A": wr("a.dat", wA.Raw)}
+		rootOf := map[string]string{"intel-sample": "intel", "own-quote-under-A": "A"}
+		i := 0
+		for _, qn := range []string{"intel-sample", "own-quote-under-A"} {
+			for _, flagRoots := range []string{"", "A", "B"} {
+				for _, cfgKind := range []string{"none", "policy-only", "roots-A", "roots-B"} {
+					for _, text := range []bool{true, false} {
+						for _, flagFirst := range []bool{true, false} {
+							if cfgKind == "none" && (!text || !flagFirst) {
+								continue
+							}
+							i++
+							if !gen.ShardOwns(i) {
+								continue
+							}
+							var args []string
+							rootsArg := ""
+							if flagRoots != "" {
+								rootsArg = "-trusted_roots=" + map[string]string{"A": rootA, "B": rootB}[flagRoots]
+							}
+							cfgArg := ""
+							cfgRoots := ""
+							if cfgKind != "none" {
+								cfg := &ccpb.Config{Policy: &ccpb.Policy{HeaderPolicy: &ccpb.HeaderPolicy{}, TdQuoteBodyPolicy: &ccpb.TDQuoteBodyPolicy{}}}
+								if cfgKind == "roots-A" {
+									cfg.RootOfTrust, cfgRoots = &ccpb.RootOfTrust{CabundlePaths: []string{rootA}}, "A"
+								}
+								if cfgKind == "roots-B" {
+									cfg.RootOfTrust, cfgRoots = &ccpb.RootOfTrust{CabundlePaths: []string{rootB}}, "B"
+								}
+								var b []byte
+								name := "config.pb"
+								if text {
+									b, _ = prototext.Marshal(cfg)
+									name = "config.textproto"
+								} else {
+									b, _ = proto.Marshal(cfg)
+								}
+								cfgArg = "-config=" + wr(name, b)
+							}
+							for _, a := range map[bool][]string{true: {rootsArg, cfgArg}, false: {cfgArg, rootsArg}}[flagFirst] {
+								if a != "" {
+									args = append(args, a)
+								}
+							}
+							args = append(args, "-inform=bin", "-in="+quotes[qn])
+							inForce := "intel"
+							if cfgRoots != "" {
+								inForce = cfgRoots
+							}
+							if flagRoots != "" {
+								inForce = flagRoots
+							}
+							want := 2
+							if inForce == rootOf[qn] {
+								want = 0
+							}
+							c := &c19Case{classes: map[int]string{}, netMode: "unreachable", args: args}
+							gen.Eval()
+							code, stderr, err := runTool(tool, c)
+							if err != nil {
+								gen.HarnessError(t, "cannot execute the tool: %v", err)
+							}
+							gen.NonTrivial("tool-roots", qn, flagRoots, cfgKind, text, flagFirst)
+							gen.Class(fmt.Sprintf("tool-roots-in-force:%s,exit%d", inForce, want))
+							if code != want {
+								gen.Fail(t, gen.Violation{Key: fmt.Sprintf("tool-roots-in-force:exit-%d-instead-of-%d", code, want), Oracle: "a quote is accepted only if its chain ends in a root that is in force: the roots of -trusted_roots when given, else the config's bundles, else the embedded Intel root",
+									Detail: fmt.Sprintf("%s, -trusted_roots=%q, config %s (text=%v, flag first=%v): roots in force %s: exit %d, want %d; %s", qn, flagRoots, cfgKind, text, flagFirst, inForce, code, want, lastLine(stderr)), Replay: map[string]any{"kind": "c02-tool", "args": relArgs(args, dir)}})
+								return
+							}
+						}
+					}
+				}
+			}
+		}
 	})
 }
